@@ -96,6 +96,15 @@ theorem query_delivery (uri : Str) (ps : List (List Nat × List Nat)) (hps : Pai
   · rw [parseQsl_urlencode false ps hps]
     exact List.filter_eq_self.mpr (fun p hp => by simp [keepPair, hnb p hp])
 
+/-- RP-initiated logout (after the fix for F-C06-d): the post-logout target is the verified URI plus
+    exactly the state the client sent — for a URI without a query part the added query parses back
+    to that one parameter, whatever characters the state consists of -/
+theorem post_logout_target (uri : Str) (state : List Nat) (hs : PairsOk [([115, 116, 97, 116, 101], state)])
+    (hne : state ≠ []) (hu : 63 ∉ uri) :
+    ∃ q, splitFirst 63 (deliver .query uri [([115, 116, 97, 116, 101], state)]) = (uri, some q) ∧
+      parseQsl false q = [([115, 116, 97, 116, 101], state)] :=
+  query_delivery uri _ hs (by intro p hp; simp at hp; subst hp; exact hne) (by simp) hu
+
 /-- no request-supplied value can add a parameter, end the query or start a fragment: its
     encoding contains none of `& = # ?` and no raw space -/
 theorem value_cannot_escape (v : List Nat) (h : AllBytes v) :
